@@ -268,6 +268,8 @@ class SSH_Socket(ReadBuf, WriteBuf):
                 header.write(padding)
                 payload_length = packet_length
                 check_size = padding_length + payload_length
+                if payload_length < 5:  # The packet must at least hold the message type and the 4-byte CRC.
+                    raise SSH_Socket.InsufficientReadException('invalid packet length')
             else:
                 self.ensure_read(1)
                 padding_length = self.read_byte()
